@@ -151,7 +151,7 @@ T_TICK = [H(n, "synct", mem=10, timeout=1200, unwindset={"extend_with": 9, "drop
 PC_OUTGOING = [PC("pc_outgoing_drained_any_endpoint_state", timeout=1500, unwindset={"drop_glue": 2, "verif_q": 9, "send_ready_outgoing": 3, "next_complete_outgoing": 5})]
 U_NORESUME = [U("u_no_resume_after_disconnect")]
 U_ORDER = [U("u_new_orders_handles")]
-U_KEEPALIVE = [U("u_poll_keep_alive_bound"), U("u_poll_keep_alive_bound_retry_due"), U("u_poll_after_disconnect_quiet", timeout=900, mem=12)]
+U_KEEPALIVE = [U("u_poll_quality_stands_in_for_keep_alive"), U("u_poll_keep_alive_bound"), U("u_poll_keep_alive_bound_retry_due"), U("u_poll_after_disconnect_quiet", timeout=900, mem=12)]
 
 PE_CUTOFF = [H("pe_cutoff_agreement_gossip_not_earlier", "sess_ep", timeout=900, mem=12, unwindset={"extend_with": 9}),
              H("pe_cutoff_agreement_gossip_earlier", "sess_ep", timeout=900, mem=12, unwindset={"extend_with": 9}, finding="F3")]
@@ -193,7 +193,7 @@ P("C11", Q_DELAY + Q_DELAY2 + Q_ADD + PC_DELAY + PC_REGISTER + PC_OUTGOING,
   "KNOWN FINDING F4: two set_frame_delay calls before the next submission (witnesses q_delay_twice_1_2_3, _2_0_3, _1_3_1; controls with a repeated identical call pass). Session-level increase paths exceed the time cap (only the decrease instance pc_delay_1_to_0 is decided there).")
 P("C12", U_HANDSHAKE + U_LIVENESS + U_NORESUME + U_TIMERS + U_CAP + PC_EVENTS + U_KEEPALIVE,
   "Lifecycle on the real endpoint: Synchronizing counts 1..4 then exactly one Synchronized after five distinct matched round trips (duplicates/stray/foreign replies do not count); NetworkResumed iff an interruption was announced; interruption/disconnect timers; a silent peer over the pending-output cap is asked to disconnect exactly once; keep-alive: a polled Running endpoint with nothing else to send queues a KeepAlive iff it has sent nothing for strictly more than 200 ms, so its newest transmission is never older than 200 ms after a poll (and any packet with the right magic refreshes the peer's receive timer: u_liveness_and_resume) - two sessions that merely poll cannot run into the 500 ms notify delay by themselves; after disconnect() an endpoint raises no event and sends nothing from its timers however long the silence, and shuts down iff strictly more than 5000 ms have passed.",
-  "Session level: forwarding of endpoint events incl. the event-queue cap, Running iff every endpoint is synchronized, NotSynchronized before that (PC_EVENTS). The keep-alive kernel is decided with no quality report due in the same poll (that case makes the send-queue position symbolic: solver out of memory); 'two sessions that merely poll never see an interruption' is not run end to end.")
+  "Session level: forwarding of endpoint events incl. the event-queue cap, Running iff every endpoint is synchronized, NotSynchronized before that (PC_EVENTS). The keep-alive kernel is decided per instance: quality report concretely due (it stands in for the keep-alive: one packet, not two) or concretely not due (both symbolic at once makes the send-queue position symbolic: solver out of memory); 'two sessions that merely poll never see an interruption' is not run end to end.")
 P("C14", K_QUICK + K_THOROUGH, PROPERTIES["C14"]["claim"], PROPERTIES["C14"]["note"],
   bounds=PROPERTIES["C14"]["bounds"], outside=PROPERTIES["C14"]["outside"], assumptions=PROPERTIES["C14"]["assumptions"])
 P("C15", M_ALL + U_QUALITY + PC_WAIT,
